@@ -24,7 +24,8 @@ EXTENDS KS, Json, SequencesExt
    query must still return finite numbers or throw. *)
 Edits == {"none", "ridge-first-point-twice", "ridge-last-point-twice", "ridge-single-point", "ridge-middle-point-twice",
           "trench-point-twice", "segment-zero-length", "segment-zero-thickness", "polygon-vertex-twice", "polygon-zero-area",
-          "min-equals-max-depth", "plume-zero-width", "spreading-zero", "slab-ridge-point-twice", "fault-vertical-zero-thickness"}
+          "min-equals-max-depth", "plume-zero-width", "spreading-zero", "slab-ridge-point-twice", "fault-vertical-zero-thickness",
+          "model-range-touches-feature-bottom", "model-range-touches-feature-top", "model-range-empty"}
 Ridge(sph, e, y0, y1) ==
   CASE e = "ridge-first-point-twice"  -> << <<XY(sph, 500, y0), XY(sph, 500, y0), XY(sph, 500, y1)>> >>
     [] e = "ridge-last-point-twice"   -> << <<XY(sph, 500, y0), XY(sph, 500, y1), XY(sph, 500, y1)>> >>
@@ -66,6 +67,7 @@ KinkSlabE(sph, e) ==
        <<CUniform(<<8>>, "replace")>>, <<>>, <<>>)
 
 KinkSlab(sph) == KinkSlabE(sph, "none")
+LinearAt(lo, hi) == ("model" :> "linear") @@ ("min depth" :> lo) @@ ("max depth" :> hi) @@ ("top temperature" :> 400) @@ ("bottom temperature" :> 900)
 (* edits of the kitchen-sink features themselves *)
 KSEdit(sph, e) ==
   LET F == KSFeatures(sph) IN
@@ -74,6 +76,16 @@ KSEdit(sph, e) ==
     [] e = "min-equals-max-depth" -> [F EXCEPT ![3]["max depth"] = 100*Km, ![1]["min depth"] = 200*Km]
     [] e = "plume-zero-width"     -> [F EXCEPT ![4]["semi-major axis"] = <<0, 0>>]
     [] e = "fault-vertical-zero-thickness" -> [F EXCEPT ![6]["segments"] = <<Segment(200*Km, <<0>>, <<0>>, <<90>>)>>]
+    \* a model whose own depth range meets the feature's range in a single depth (or is empty): the overlap has no thickness
+    [] e = "model-range-touches-feature-bottom" ->
+         [F EXCEPT ![1]["temperature models"] = Append(@, LinearAt(200*Km, 300*Km)), ![2]["temperature models"] = Append(@, LinearAt(150*Km, 250*Km)),
+                   ![3]["temperature models"] = Append(@, LinearAt(400*Km, 500*Km))]
+    [] e = "model-range-touches-feature-top" ->
+         [F EXCEPT ![1]["temperature models"] = Append(@, LinearAt(0, 0)), ![2]["temperature models"] = Append(@, LinearAt(0, 0)),
+                   ![3]["temperature models"] = Append(@, LinearAt(0, 100*Km))]
+    [] e = "model-range-empty" ->
+         [F EXCEPT ![1]["temperature models"] = Append(@, LinearAt(50*Km, 50*Km)), ![2]["temperature models"] = Append(@, LinearAt(120*Km, 120*Km)),
+                   ![3]["temperature models"] = Append(@, LinearAt(350*Km, 350*Km))]
     [] OTHER -> F
 Features13E(sph, e) == KSEdit(sph, e) \o <<RidgePlateE(sph, e, "hs", "half space model", 1000, 1500), RidgePlateE(sph, e, "pm", "plate model", 1500, 2000),
                                             SurfacePlate(sph), KinkSlabE(sph, e)>>
@@ -132,7 +144,7 @@ SphereBehaviour(s) ==
              \o [j \in 1..Len(ls) |-> Query("spherical", s[1], [sph |-> <<s[2], s[3], s[4]>>], s[5], ls[j], 3)]]
 
 (* a degenerate world: built once (the constructor may refuse it), then asked at every degenerate surface position *)
-EditDepthsKm == {0, 50, 120, 350}
+EditDepthsKm == {0, 50, 100, 120, 150, 200, 350, 400}      \* includes every min / max depth of the area features
 EditBehaviour(k, e) ==
   LET qs == SetToSeq(Surface \X EditDepthsKm)
       full == <<PT, PC(0), PC(2), PC(5), PC(6), PC(7), PC(8), PG(0, 2), PTag, PV>>
